@@ -38,6 +38,8 @@ so that the committed C12 translation does not move when that module is develope
                            as `**local` in calls is expanded into the keywords it stands for;
                        (a temporary is inlined only if it and every name its value mentions are bound exactly once, before
                        its first use).
+  in-place on parameters  `refuse_inplace_params=True`: `p op= e` on a parameter is untranslatable (for an array it changes the
+                       caller's object, which a value-passing translation cannot express) instead of the rebinding `p = p op e`.
   parameter order      `check_params(fn, [names...])` : the leading positional parameters of a live function must be the
                        listed ones, in that order (for callees that are called positionally through a variable).
 """
@@ -510,8 +512,12 @@ class _EndTry(ast.stmt):
 
 
 class Rules2T(Rules2W):
-    def __init__(self, expr=(), stmt=(), catch=(), callees=None, helpers=None, normalise=True, **kw):
+    def __init__(self, expr=(), stmt=(), catch=(), callees=None, helpers=None, normalise=True, refuse_inplace_params=False,
+                 **kw):
         Rules2W.__init__(self, expr=expr, stmt=stmt, **kw)
+        # `p op= e` on a PARAMETER mutates the caller's object when it is an array: the value-passing translation cannot
+        # say that, so (when asked to) it refuses instead of translating it as the rebinding `p = p op e`
+        self.refuse_inplace_params = refuse_inplace_params
         self.catch = set(catch) | set(CATCH_ALL)
         self.callees = dict(callees or {})
         self.helpers = dict(helpers or {})
@@ -893,6 +899,10 @@ class Translator2T(Translator2W):
                 self._handlers.append(saved)
         if isinstance(st, ast.Try):
             return self.try_stmt(st, rest, scope, ind, ctx)
+        if (isinstance(st, ast.AugAssign) and isinstance(st.target, ast.Name) and getattr(self.r, "refuse_inplace_params", False)
+                and st.target.id in getattr(self, "_params", ()) and not any(match(pat, st, {}) for pat, _r, _t in self.r.stmt)):
+            raise Untranslatable("in-place operator on the parameter `%s` (it would change the caller's object; aliasing is "
+                                 "outside the value-passing model)" % st.target.id)
         if isinstance(st, ast.Raise) and self._handler() is not None:
             h = self._handler()
             if h is False:
@@ -946,6 +956,8 @@ class Translator2T(Translator2W):
 
     def function_node(self, node, arg_names, ind=2, allow_unused=()):
         node = _copy.deepcopy(node)
+        a = node.args
+        self._params = {x.arg for x in a.posonlyargs + a.args + a.kwonlyargs}
         if getattr(self.r, "normalise", False):
             node = inline_helpers(node, self.r.helpers, self._ruled)
             node = inline_temporaries(node)
